@@ -108,6 +108,34 @@ def exact_fill(sym, r, ver, level, spare):
     return None
 
 
+def exact_lists(sym, ver, level, spare, maxsegs=3, limit=60):
+    """ALL lists (up to `limit`) of at most `maxsegs` segments of pairwise different adjacent kinds whose standard bit
+    length is exactly capacity - spare: systematic counterpart of exact_fill for small symbols; returns [(kind, n)] lists"""
+    cap = ref(sym).capacity_bits(ver, level)
+    ks = kinds_for(sym, ver)
+    out = []
+
+    def rec(rem, prev, acc):
+        if len(out) >= limit:
+            return
+        for k in ks:
+            if k == prev:
+                continue
+            mc = max_count(sym, k, ver, level)
+            for n in range(1, mc + 1):
+                b = seg_len_bits(sym, k, n, ver, level)
+                if b > rem:
+                    break
+                if b == rem:
+                    out.append(acc + [(k, n)])
+                    if len(out) >= limit:
+                        return
+                elif len(acc) + 1 < maxsegs:
+                    rec(rem - b, k, acc + [(k, n)])
+    rec(cap - spare, None, [])
+    return out
+
+
 def random_segs(sym, r, ver, level, nonempty=True):
     cap = ref(sym).capacity_bits(ver, level)
     ks = kinds_for(sym, ver)
